@@ -25,7 +25,6 @@ package unixfsnode
 //@ func unixfsnode.doReify
 //@ ensures not-dagpb-unchanged: !typeis(maybePBNodeRoot, "*dagpb._PBNode") ==> result == maybePBNodeRoot && err == nil
 //@ ensures no-data-is-link-map: typeis(maybePBNodeRoot, "*dagpb._PBNode") && maybePBNodeRoot.(*dagpb._PBNode).Data.m != 2 ==> err == nil && typeis(result, "*unixfsnode._PathedPBNode") && result.(*unixfsnode._PathedPBNode)._substrate == maybePBNodeRoot
-//@ ensures error-has-no-node: err != nil ==> result == nil || typeis(result, "*hamt._UnixFSHAMTShard")
 
 //@ func unixfsnode.Reify
 //@ ensures not-dagpb-unchanged: !typeis(maybePBNodeRoot, "*dagpb._PBNode") ==> result == maybePBNodeRoot && err == nil
